@@ -3,7 +3,7 @@
     C05, C06) are stated with. *)
 
 From Sodg Require Export Refine Shape.
-From Coq Require Import Permutation.
+From Coq Require Import Permutation Sorted.
 
 (** ** call sequences *)
 
@@ -194,3 +194,536 @@ Section SpecRules.
     - rewrite spec_next_present. exact Hw.
   Qed.
 End SpecRules.
+
+(** ** C01: whoever is removed is linked to the vertex read *)
+
+Fixpoint bind_pairs (os : list op) : list (nat * nat) :=
+  match os with
+  | [] => []
+  | OBind v1 v2 _ :: t => (v1, v2) :: bind_pairs t
+  | _ :: t => bind_pairs t
+  end.
+
+(** connected in the undirected graph whose edges are the bind calls *)
+Inductive linked (E : list (nat * nat)) : nat -> nat -> Prop :=
+| l_refl v : linked E v v
+| l_edge a b : In (a, b) E -> linked E a b
+| l_sym a b : linked E a b -> linked E b a
+| l_trans a b c : linked E a b -> linked E b c -> linked E a c.
+
+Definition endpoint (E : list (nat * nat)) (v : nat) : Prop :=
+  exists w, In (v, w) E \/ In (w, v) E.
+
+Lemma bind_pairs_app os1 os2 : bind_pairs (os1 ++ os2) = bind_pairs os1 ++ bind_pairs os2.
+Proof.
+  induction os1 as [|o t IH]; cbn [app bind_pairs]; [reflexivity|].
+  destruct o; cbn [app]; rewrite ?IH; reflexivity.
+Qed.
+
+Lemma linked_mono E E' a b : incl E E' -> linked E a b -> linked E' a b.
+Proof.
+  intros Hi H. induction H.
+  - apply l_refl.
+  - apply l_edge. apply Hi. assumption.
+  - apply l_sym. assumption.
+  - eapply l_trans; eassumption.
+Qed.
+
+Lemma endpoint_mono E E' v : incl E E' -> endpoint E v -> endpoint E' v.
+Proof. intros Hi (w & [H|H]); exists w; [left|right]; apply Hi; exact H. Qed.
+
+(** invariant of the reference run together with the bind calls made so far *)
+Record J (E : list (nat * nat)) (s : spec) : Prop := {
+  j_bound : forall v, s_present s v = true -> v < s_bound s;
+  j_fresh : forall v k, s_present s v = true -> s_grp s v = Some k -> k < s_fresh s;
+  j_link : forall v w k, s_present s v = true -> s_present s w = true ->
+                         s_grp s v = Some k -> s_grp s w = Some k -> linked E v w;
+  j_endp : forall v k, s_present s v = true -> s_grp s v = Some k -> endpoint E v
+}.
+
+Lemma J_init : J [] sinit.
+Proof. split; cbn; intros; discriminate. Qed.
+
+Definition pairs_of (o : op) : list (nat * nat) :=
+  match o with OBind v1 v2 _ => [(v1, v2)] | _ => [] end.
+
+Lemma J_mono E E' s : incl E E' -> J E s -> J E' s.
+Proof.
+  intros Hi [A B C D]. split; auto.
+  - intros v w k H1 H2 H3 H4. eapply linked_mono; [exact Hi|]. eapply C; eassumption.
+  - intros v k H1 H2. eapply endpoint_mono; [exact Hi|]. eapply D; eassumption.
+Qed.
+
+Lemma J_step n cap E s o :
+  J E s -> pre n cap s o -> J (E ++ pairs_of o) (fst (sstep s o)).
+Proof.
+  intros HJ Hp.
+  assert (Hi : incl E (E ++ pairs_of o)) by (apply incl_appl; apply incl_refl).
+  pose proof (J_mono E _ s Hi HJ) as HJ'. clear HJ. destruct HJ' as [A B C D].
+  destruct o as [v|v1 v2 a|v d|v| |v a|v|]; cbn [pairs_of] in *; try (split; assumption).
+  - (* add *)
+    cbn [sstep]. destruct (s_present s v) eqn:Pv; cbn [fst]; [split; assumption|].
+    split; cbn [s_bound s_present s_grp s_fresh]; unfold fupd.
+    + intros w. destruct (Nat.eqb_spec v w) as [->|Hne]; [lia|]. intros H. apply A in H. lia.
+    + intros w k. destruct (Nat.eqb_spec v w) as [->|Hne]; [discriminate|]. apply B.
+    + intros w1 w2 k. destruct (Nat.eqb_spec v w1) as [->|N1]; [discriminate|].
+      destruct (Nat.eqb_spec v w2) as [->|N2]; [discriminate|]. apply C.
+    + intros w k. destruct (Nat.eqb_spec v w) as [->|Hne]; [discriminate|]. apply D.
+  - (* bind *)
+    destruct Hp as (P1 & P2 & Hne & _).
+    assert (L12 : linked (E ++ [(v1, v2)]) v1 v2) by (apply l_edge; apply in_or_app; right; left; reflexivity).
+    assert (E1 : endpoint (E ++ [(v1, v2)]) v1) by (exists v2; left; apply in_or_app; right; left; reflexivity).
+    assert (E2 : endpoint (E ++ [(v1, v2)]) v2) by (exists v1; right; apply in_or_app; right; left; reflexivity).
+    cbn [sstep]. destruct (s_grp s v1) as [k1|] eqn:G1; destruct (s_grp s v2) as [k2|] eqn:G2; cbn [fst].
+    + split; cbn [s_bound s_present s_grp s_fresh]; assumption.
+    + (* v2 joins k1 *)
+      split; cbn [s_bound s_present s_grp s_fresh]; unfold fupd; auto.
+      * intros w k. destruct (Nat.eqb_spec v2 w) as [<-|N]; [|apply B].
+        intros _ K. injection K as <-. apply (B v1 k1 P1 G1).
+      * intros w1 w2 k. destruct (Nat.eqb_spec v2 w1) as [<-|N1]; destruct (Nat.eqb_spec v2 w2) as [<-|N2].
+        -- intros; apply l_refl.
+        -- intros _ H2 K1 K2. injection K1 as <-. eapply l_trans; [apply l_sym; exact L12|]. apply (C v1 w2 k1); auto.
+        -- intros H1 _ K1 K2. injection K2 as <-. eapply l_trans; [|exact L12]. apply (C w1 v1 k1); auto.
+        -- apply C.
+      * intros w k. destruct (Nat.eqb_spec v2 w) as [<-|N]; [intros; exact E2|apply D].
+    + (* v1 joins k2 *)
+      split; cbn [s_bound s_present s_grp s_fresh]; unfold fupd; auto.
+      * intros w k. destruct (Nat.eqb_spec v1 w) as [<-|N]; [|apply B].
+        intros _ K. injection K as <-. apply (B v2 k2 P2 G2).
+      * intros w1 w2 k. destruct (Nat.eqb_spec v1 w1) as [<-|N1]; destruct (Nat.eqb_spec v1 w2) as [<-|N2].
+        -- intros; apply l_refl.
+        -- intros _ H2 K1 K2. injection K1 as <-. eapply l_trans; [exact L12|]. apply (C v2 w2 k2); auto.
+        -- intros H1 _ K1 K2. injection K2 as <-. eapply l_trans; [|apply l_sym; exact L12]. apply (C w1 v2 k2); auto.
+        -- apply C.
+      * intros w k. destruct (Nat.eqb_spec v1 w) as [<-|N]; [intros; exact E1|apply D].
+    + (* new group *)
+      assert (Q : forall w, s_present s w = true -> s_grp s w <> Some (s_fresh s)).
+      { intros w Hw K. apply (B w _ Hw) in K. lia. }
+      split; cbn [s_bound s_present s_grp s_fresh]; unfold fupd; auto.
+      * intros w k Hw. destruct (Nat.eqb_spec v2 w) as [<-|N2]; [intros K; injection K as <-; lia|].
+        destruct (Nat.eqb_spec v1 w) as [<-|N1]; [intros K; injection K as <-; lia|].
+        intros K. apply (B w k Hw) in K. lia.
+      * intros w1 w2 k H1 H2.
+        destruct (Nat.eqb_spec v2 w1) as [<-|A2]; [|destruct (Nat.eqb_spec v1 w1) as [<-|A1]];
+          (destruct (Nat.eqb_spec v2 w2) as [<-|B2]; [|destruct (Nat.eqb_spec v1 w2) as [<-|B1]]);
+          intros K1 K2; try (apply l_refl); try (exact L12); try (apply l_sym; exact L12);
+          try (injection K1 as <-; exfalso; apply (Q _ H2 K2));
+          try (injection K2 as <-; exfalso; apply (Q _ H1 K1)).
+        apply (C w1 w2 k); assumption.
+      * intros w k Hw. destruct (Nat.eqb_spec v2 w) as [<-|N2]; [intros; exact E2|].
+        destruct (Nat.eqb_spec v1 w) as [<-|N1]; [intros; exact E1|]. apply D; exact Hw.
+  - (* data *)
+    cbn [sstep]. destruct (s_unread s v); [|split; assumption].
+    destruct (s_grp s v) as [k|]; [|split; assumption].
+    destruct (existsb _ _); [split; assumption|].
+    split; cbn [fst s_bound s_present s_grp s_fresh].
+    + intros w. destruct (in_group s k w); [discriminate|apply A].
+    + intros w k'. destruct (in_group s k w); [discriminate|apply B].
+    + intros w1 w2 k'. destruct (in_group s k w1); [discriminate|].
+      destruct (in_group s k w2); [discriminate|]. apply C.
+    + intros w k'. destruct (in_group s k w); [discriminate|apply D].
+  - (* next *)
+    cbn [sstep]. destruct (find _ _); split; assumption.
+Qed.
+
+Lemma J_run n cap : forall os, within_limits n cap sinit os -> J (bind_pairs os) (fst (srun sinit os)).
+Proof.
+  intros os. induction os as [|o t IH] using rev_ind; intros HW.
+  - apply J_init.
+  - apply within_limits_app in HW as [H1 H2]. cbn [within_limits] in H2. destruct H2 as [Hp _].
+    rewrite bind_pairs_app, srun_app. cbn [fst].
+    replace (bind_pairs [o]) with (pairs_of o) by (destruct o; reflexivity).
+    replace (fst (srun (fst (srun sinit t)) [o])) with (fst (sstep (fst (srun sinit t)) o)).
+    + apply (J_step n cap); [apply IH; exact H1|exact Hp].
+    + cbn [srun]. destruct (sstep _ o). reflexivity.
+Qed.
+
+(** the safety statement on the reference model *)
+Theorem spec_safety n cap os o :
+  within_limits n cap sinit (os ++ [o]) ->
+  let s := fst (srun sinit os) in
+  let s' := fst (sstep s o) in
+  forall w, s_present s w = true -> s_present s' w = false ->
+  exists v, o = OData v /\ s_unread s v = true
+            /\ linked (bind_pairs os) v w /\ endpoint (bind_pairs os) w
+            /\ s_unread s' w = false.
+Proof.
+  intros HW s s' w P0 P1.
+  pose proof HW as HW0. apply within_limits_app in HW0 as [HW1 _].
+  pose proof (J_run n cap os HW1) as HJ. fold s in HJ.
+  destruct (match o with OData v => Some v | _ => None end) as [v|] eqn:Ho.
+  2:{ exfalso. assert (Hno : forall v, o <> OData v) by (intros v ->; discriminate).
+      pose proof (spec_only_data_removes s o w Hno P0) as Q. fold s' in Q. congruence. }
+  destruct o; try discriminate. injection Ho as ->. exists v. split; [reflexivity|].
+  unfold s' in *. cbn [sstep] in *.
+  destruct (s_unread s v) eqn:Uv; [|cbn [fst] in P1; congruence]. split; [reflexivity|].
+  destruct (s_grp s v) as [k|] eqn:Gv; [|cbn [fst s_present] in P1; congruence].
+  destruct (existsb (fupd (s_unread s) v false) (group_members s k)) eqn:Ex;
+    [cbn [fst s_present] in P1; congruence|].
+  cbn [fst s_present s_unread] in *.
+  destruct (in_group s k w) eqn:Ig; [|congruence].
+  apply in_group_spec in Ig as [_ Gw].
+  assert (Pv : s_present s v = true).
+  { apply within_limits_app in HW as [_ H2]. cbn [within_limits pre] in H2. apply H2. }
+  split; [apply (j_link _ _ HJ v w k); assumption|].
+  split; [apply (j_endp _ _ HJ w k); assumption|].
+  destruct (fupd (s_unread s) v false w) eqn:Uw; [|reflexivity]. exfalso.
+  assert (existsb (fupd (s_unread s) v false) (group_members s k) = true).
+  { apply existsb_exists. exists w. split; [|exact Uw]. apply group_members_spec.
+    split; [apply (j_bound _ _ HJ); exact P0|]. split; assumption. }
+  congruence.
+Qed.
+
+(** ** C05: the allocator *)
+
+Lemma spec_alloc_mono s o : s_alloc s <= s_alloc (fst (sstep s o)).
+Proof.
+  destruct o as [v|v1 v2 a|v d|v| |v a|v|]; cbn [sstep]; try (cbn; lia).
+  - destruct (s_present s v); cbn; lia.
+  - destruct (s_grp s v1), (s_grp s v2); cbn; lia.
+  - destruct (s_unread s v); [|cbn; lia]. destruct (s_grp s v); [|cbn; lia].
+    destruct (existsb _ _); cbn; lia.
+  - destruct (find _ _) as [id|] eqn:F; [|cbn; lia]. cbn [fst s_alloc].
+    apply find_some in F as [Hin _]. apply in_seq in Hin. lia.
+Qed.
+
+(** what next_id() returns on the reference model, inside the limits *)
+Lemma spec_next_fresh n cap s :
+  (forall v, s_present s v = true -> v < s_bound s) ->
+  pre n cap s ONext ->
+  exists id, sstep s ONext = (mkS (s_bound s) (s_present s) (s_grp s) (s_unread s) (s_edges s)
+                                  (s_data s) (S id) (s_fresh s), RId id)
+             /\ s_alloc s <= id /\ id < cap /\ s_present s id = false
+             /\ (forall w, s_alloc s <= w -> w < id -> s_present s w = true).
+Proof.
+  intros HB (x & X1 & X2 & X3). cbn [sstep].
+  destruct (find (fun w => negb (s_present s w)) (seq (s_alloc s) (S (s_bound s)))) as [id|] eqn:F.
+  - exists id. split; [reflexivity|].
+    pose proof (find_some _ _ F) as [Hin Hp]. apply in_seq in Hin. apply negb_true_iff in Hp.
+    assert (Least : forall w, s_alloc s <= w -> w < id -> s_present s w = true).
+    { intros w W1 W2. pose proof (find_seq_least _ _ _ _ F w W1 W2) as Q. cbn beta in Q.
+      apply negb_false_iff in Q. exact Q. }
+    repeat split; try lia; auto.
+    destruct (Nat.lt_ge_cases id cap) as [L|L]; [exact L|]. exfalso.
+    assert (s_present s x = true) by (apply Least; lia). congruence.
+  - exfalso. set (m := Nat.max (s_alloc s) (s_bound s)).
+    assert (Pm : s_present s m = false).
+    { destruct (s_present s m) eqn:Q; [|reflexivity]. apply HB in Q. unfold m in Q. lia. }
+    eapply find_none with (x := m) in F.
+    + cbn beta in F. rewrite Pm in F. discriminate.
+    + apply in_seq. unfold m. lia.
+Qed.
+
+Definition ids_of (rs : list res) : list nat :=
+  flat_map (fun r => match r with RId v => [v] | _ => [] end) rs.
+
+Definition bounded (s : spec) : Prop := forall v, s_present s v = true -> v < s_bound s.
+
+Lemma bounded_init : bounded sinit.
+Proof. intros v H. discriminate. Qed.
+
+Lemma bounded_step s o : bounded s -> bounded (fst (sstep s o)).
+Proof.
+  intros HB. destruct o as [v|v1 v2 a|v d|v| |v a|v|]; cbn [sstep]; try exact HB.
+  - destruct (s_present s v) eqn:Pv; [exact HB|]. intros w. cbn [fst s_present s_bound]. unfold fupd.
+    destruct (Nat.eqb_spec v w) as [->|Hne]; [lia|]. intros H. apply HB in H. lia.
+  - destruct (s_grp s v1), (s_grp s v2); exact HB.
+  - destruct (s_unread s v); [|exact HB]. destruct (s_grp s v) as [k|]; [|exact HB].
+    destruct (existsb _ _); [exact HB|]. intros w. cbn [fst s_present s_bound].
+    destruct (in_group s k w); [discriminate|apply HB].
+  - destruct (find _ _); exact HB.
+Qed.
+
+Lemma bounded_run : forall os s, bounded s -> bounded (fst (srun s os)).
+Proof.
+  induction os as [|o t IH]; intros s HB; [exact HB|]. rewrite srun_cons. cbn [fst].
+  apply IH. apply bounded_step. exact HB.
+Qed.
+
+Lemma sstep_not_id s o : o <> ONext -> ids_of [snd (sstep s o)] = [].
+Proof.
+  intros Hn. destruct o as [v|v1 v2 a|v d|v| |v a|v|]; cbn [sstep]; try reflexivity.
+  - destruct (s_present s v); reflexivity.
+  - destruct (s_grp s v1), (s_grp s v2); reflexivity.
+  - destruct (s_unread s v); [|reflexivity]. destruct (s_grp s v); [|reflexivity].
+    destruct (existsb _ _); reflexivity.
+  - congruence.
+Qed.
+
+Lemma ids_of_cons r rs : ids_of (r :: rs) = ids_of [r] ++ ids_of rs.
+Proof. unfold ids_of. cbn [flat_map]. rewrite app_nil_r. reflexivity. Qed.
+
+(** the ids handed out along a call sequence inside the limits are at or
+    above the allocator position they started from, below the capacity, below
+    the allocator position reached at the end, and strictly increasing (hence
+    never repeated) *)
+Lemma spec_ids_increasing n cap : forall os s,
+  bounded s -> within_limits n cap s os ->
+  Forall (fun id => s_alloc s <= id /\ id < cap /\ id < s_alloc (fst (srun s os))) (ids_of (snd (srun s os)))
+  /\ StronglySorted lt (ids_of (snd (srun s os)))
+  /\ s_alloc s <= s_alloc (fst (srun s os)).
+Proof.
+  induction os as [|o t IH]; intros s HB HW.
+  - cbn. split; [constructor|]. split; [constructor|lia].
+  - destruct HW as [Hp HW]. rewrite srun_cons. cbn [fst snd].
+    pose proof (bounded_step s o HB) as HB1.
+    destruct (IH _ HB1 HW) as (F1 & S1 & M1).
+    pose proof (spec_alloc_mono s o) as M0.
+    rewrite ids_of_cons.
+    destruct (match o with ONext => true | _ => false end) eqn:Isn.
+    + destruct o; try discriminate.
+      destruct (spec_next_fresh n cap s HB Hp) as (id & E & A1 & A2 & A3 & _).
+      rewrite E in *. cbn [fst snd s_alloc] in *. change (ids_of [RId id]) with [id]. cbn [app].
+      split; [|split; [|lia]].
+      * constructor; [lia|]. eapply Forall_impl; [|exact F1]. cbn beta. intros x (X1 & X2 & X3). lia.
+      * constructor; [exact S1|]. eapply Forall_impl; [|exact F1]. cbn beta. intros x (X1 & X2 & X3). lia.
+    + rewrite sstep_not_id by (intros ->; discriminate). cbn [app].
+      split; [|split; [exact S1|lia]].
+      eapply Forall_impl; [|exact F1]. cbn beta. intros x (X1 & X2 & X3). lia.
+Qed.
+
+(** ** C03: last-write laws of the reference model *)
+
+Lemma mm_get_spec_insert e a v b :
+  mm_get (spec_insert e a v) b = if label_eqb a b then Some v else mm_get e b.
+Proof.
+  unfold spec_insert. destruct (mm_replace e a v) as [e'|] eqn:Rp.
+  - eapply mm_get_replace; eauto.
+  - apply mm_replace_none in Rp. apply mm_get_app_fresh; exact Rp.
+Qed.
+
+Section ReadBack.
+  Variable s : spec.
+
+  (** the answers *)
+  Lemma spec_kid_answer v a : snd (sstep s (OKid v a)) = RKid (mm_get (s_edges s v) a).
+  Proof. reflexivity. Qed.
+  Lemma spec_kids_answer v : snd (sstep s (OKids v)) = RKids (s_edges s v).
+  Proof. reflexivity. Qed.
+  Lemma spec_data_answer v : snd (sstep s (OData v)) = RData (s_data s v).
+  Proof.
+    cbn [sstep]. destruct (s_unread s v); [|reflexivity]. destruct (s_grp s v); [|reflexivity].
+    destruct (existsb _ _); reflexivity.
+  Qed.
+
+  (** bind(v1, v2, a) makes a point to v2, leaves every other label of v1 and
+      every other vertex alone; a re-bound label keeps its position *)
+  Lemma spec_bind_edges v1 v2 a :
+    let s' := fst (sstep s (OBind v1 v2 a)) in
+    (forall b, mm_get (s_edges s' v1) b = if label_eqb a b then Some v2 else mm_get (s_edges s v1) b)
+    /\ map fst (s_edges s' v1) = (if in_dec label_eq_dec a (map fst (s_edges s v1))
+                                  then map fst (s_edges s v1) else map fst (s_edges s v1) ++ [a])
+    /\ (forall w, w <> v1 -> s_edges s' w = s_edges s w)
+    /\ (forall w, s_data s' w = s_data s w).
+  Proof.
+    cbn [sstep].
+    destruct (s_grp s v1), (s_grp s v2); cbn [fst s_edges s_data]; unfold fupd; rewrite Nat.eqb_refl;
+      (split; [intros b; apply mm_get_spec_insert|]); (split; [apply spec_insert_keys|]);
+      (split; [intros w Hw; apply Nat.eqb_neq in Hw; rewrite Nat.eqb_sym, Hw; reflexivity|reflexivity]).
+  Qed.
+
+  (** put(v, d) makes d the datum of v and touches nothing else *)
+  Lemma spec_put_data v d :
+    let s' := fst (sstep s (OPut v d)) in
+    s_data s' v = Some d /\ (forall w, w <> v -> s_data s' w = s_data s w)
+    /\ (forall w, s_edges s' w = s_edges s w).
+  Proof.
+    cbn [sstep fst s_data s_edges]. unfold fupd. rewrite Nat.eqb_refl. split; [reflexivity|].
+    split; [|reflexivity]. intros w Hw. apply Nat.eqb_neq in Hw. rewrite Nat.eqb_sym, Hw. reflexivity.
+  Qed.
+
+  (** reads (first or repeated, collecting or not), next_id and the observers
+      never change any edge or datum *)
+  Lemma spec_frame_readers o :
+    match o with OData _ | ONext | OKid _ _ | OKids _ | OKeys => True | _ => False end ->
+    forall w, s_edges (fst (sstep s o)) w = s_edges s w /\ s_data (fst (sstep s o)) w = s_data s w.
+  Proof.
+    destruct o as [v|v1 v2 a|v d|v| |v a|v|]; intros H w; try destruct H; cbn [sstep]; auto.
+    - destruct (s_unread s v); [|auto]. destruct (s_grp s v); [|auto]. destruct (existsb _ _); auto.
+    - destruct (find _ _); auto.
+  Qed.
+
+  (** add(v) of a present vertex changes nothing; of an absent id it blanks v only *)
+  Lemma spec_frame_add v w :
+    w <> v -> s_edges (fst (sstep s (OAdd v))) w = s_edges s w /\ s_data (fst (sstep s (OAdd v))) w = s_data s w.
+  Proof.
+    intros Hw. cbn [sstep]. destruct (s_present s v); [auto|]. cbn [fst s_edges s_data]. unfold fupd.
+    apply Nat.eqb_neq in Hw. rewrite Nat.eqb_sym, Hw. auto.
+  Qed.
+End ReadBack.
+
+(** ** C10: clone *)
+
+Lemma clone_exact g : op_clone g = g.
+Proof. reflexivity. Qed.
+
+Lemma clone_same_future n g os : run n (op_clone g) os = run n g os.
+Proof. reflexivity. Qed.
+
+(** ** C06: create / fill / read / collect cycles *)
+
+Definition cycle (u w : nat) (a : label) (d : hex) : list op :=
+  [OAdd u; OAdd w; OBind u w a; OPut w d; OData w].
+
+Definition fresh_ok (s : spec) : Prop :=
+  forall v k, s_present s v = true -> s_grp s v = Some k -> k < s_fresh s.
+
+Lemma alive_same_length s1 s2 :
+  (forall k, In k (alive_groups s1) <-> In k (alive_groups s2)) ->
+  length (alive_groups s1) = length (alive_groups s2).
+Proof.
+  intros H. apply Permutation_length. apply NoDup_Permutation; [apply NoDup_nodup|apply NoDup_nodup|exact H].
+Qed.
+
+Lemma existsb_false {A} (f : A -> bool) l : (forall x, In x l -> f x = false) -> existsb f l = false.
+Proof.
+  induction l as [|x t IH]; intros H; cbn [existsb]; [reflexivity|].
+  rewrite (H x) by (left; reflexivity). apply IH. intros y Hy. apply H. right; exact Hy.
+Qed.
+
+Lemma cycle_spec n cap s u w a d :
+  bounded s -> fresh_ok s -> u <> w -> u < cap -> w < cap -> 1 <= n ->
+  s_present s u = false -> s_present s w = false -> length (alive_groups s) < 14 ->
+  within_limits n cap s (cycle u w a d)
+  /\ (let s' := fst (srun s (cycle u w a d)) in
+      bounded s' /\ fresh_ok s'
+      /\ (forall x, s_present s' x = s_present s x)
+      /\ (forall x, s_present s x = true -> s_grp s' x = s_grp s x)
+      /\ length (alive_groups s') = length (alive_groups s))
+  /\ snd (srun s (cycle u w a d)) = [RUnit; RUnit; RUnit; RUnit; RData (Some d)].
+Proof.
+  intros HB HF Hne Hu Hw Hn Pu Pw Hal.
+  assert (Nuw : (u =? w) = false) by (apply Nat.eqb_neq; exact Hne).
+  assert (Nwu : (w =? u) = false) by (apply Nat.eqb_neq; congruence).
+  set (b2 := Nat.max (Nat.max (s_bound s) (S u)) (S w)).
+  set (P2 := fupd (fupd (s_present s) u true) w true).
+  set (G2 := fupd (fupd (s_grp s) u None) w None).
+  set (U2 := fupd (fupd (s_unread s) u false) w false).
+  set (E2 := fupd (fupd (s_edges s) u []) w []).
+  set (D2 := fupd (fupd (s_data s) u None) w None).
+  set (s2 := mkS b2 P2 G2 U2 E2 D2 (s_alloc s) (s_fresh s)).
+  set (G3 := fupd (fupd G2 u (Some (s_fresh s))) w (Some (s_fresh s))).
+  set (E3 := fupd E2 u (spec_insert (E2 u) a w)).
+  set (s3 := mkS b2 P2 G3 U2 E3 D2 (s_alloc s) (S (s_fresh s))).
+  set (s4 := mkS b2 P2 G3 (fupd U2 w true) E3 (fupd D2 w (Some d)) (s_alloc s) (S (s_fresh s))).
+  set (s5 := mkS b2 (fun x => if in_group s4 (s_fresh s) x then false else P2 x)
+                 (fun x => if in_group s4 (s_fresh s) x then None else G3 x)
+                 (fupd (fupd U2 w true) w false) E3 (fupd D2 w (Some d)) (s_alloc s) (S (s_fresh s))).
+  assert (S12 : srun s [OAdd u; OAdd w] = (s2, [RUnit; RUnit])).
+  { cbn [srun sstep]. rewrite Pu. cbn [s_present]. unfold fupd at 1. rewrite Nuw, Pw. reflexivity. }
+  assert (S3 : sstep s2 (OBind u w a) = (s3, RUnit)).
+  { assert (Gu : s_grp s2 u = None) by (cbn [s2 s_grp]; unfold G2, fupd; rewrite Nwu, Nat.eqb_refl; reflexivity).
+    assert (Gw : s_grp s2 w = None) by (cbn [s2 s_grp]; unfold G2, fupd; rewrite Nat.eqb_refl; reflexivity).
+    cbn [sstep]. rewrite Gu, Gw. reflexivity. }
+  assert (S4 : sstep s3 (OPut w d) = (s4, RUnit)) by reflexivity.
+  (* who is in the new group *)
+  assert (IG : forall x, in_group s4 (s_fresh s) x = ((x =? u) || (x =? w))).
+  { intros x. unfold in_group. cbn [s4 s_present s_grp]. unfold P2, G3, G2, fupd.
+    rewrite (Nat.eqb_sym x u), (Nat.eqb_sym x w).
+    destruct (Nat.eqb_spec w x) as [Q1|N1].
+    - rewrite Nat.eqb_refl, orb_true_r. reflexivity.
+    - destruct (Nat.eqb_spec u x) as [Q2|N2].
+      + rewrite Nat.eqb_refl. reflexivity.
+      + cbn [orb]. destruct (s_present s x) eqn:Px; [|reflexivity]. cbn [andb].
+        destruct (s_grp s x) as [k|] eqn:Gx; [|reflexivity].
+        pose proof (HF x k Px Gx). destruct (Nat.eqb_spec k (s_fresh s)); [lia|reflexivity]. }
+  assert (S5 : sstep s4 (OData w) = (s5, RData (Some d))).
+  { cbn [sstep]. cbn [s4 s_unread s_grp s_data]. unfold fupd at 1. rewrite Nat.eqb_refl.
+    unfold G3 at 1. unfold fupd at 1. rewrite Nat.eqb_refl.
+    rewrite existsb_false.
+    - unfold fupd at 4. rewrite Nat.eqb_refl. reflexivity.
+    - intros x Hx. apply group_members_spec in Hx as (_ & Hp & Hg).
+      assert (Q : in_group s4 (s_fresh s) x = true) by (apply in_group_spec; split; assumption).
+      rewrite IG in Q. unfold fupd. destruct (Nat.eqb_spec w x) as [_|N1]; [reflexivity|].
+      destruct (Nat.eqb_spec w x); [contradiction|].
+      apply orb_true_iff in Q as [Q|Q]; apply Nat.eqb_eq in Q; subst x; [|congruence].
+      unfold U2, fupd. rewrite Nwu, Nat.eqb_refl. reflexivity. }
+  assert (SR : srun s (cycle u w a d) = (s5, [RUnit; RUnit; RUnit; RUnit; RData (Some d)])).
+  { change (cycle u w a d) with ([OAdd u; OAdd w] ++ [OBind u w a; OPut w d; OData w]).
+    rewrite srun_app, S12. cbn [fst snd]. rewrite !srun_cons. rewrite S3. cbn [fst snd]. rewrite S4. cbn [fst snd]. rewrite S5. reflexivity. }
+  (* the present set and the groups of the survivors are as before *)
+  assert (P5 : forall x, s_present s5 x = s_present s x).
+  { intros x. cbn [s5 s_present]. rewrite IG. unfold P2, fupd.
+    destruct (Nat.eqb_spec x u) as [->|N1]; cbn [orb]; [congruence|].
+    destruct (Nat.eqb_spec x w) as [->|N2]; [congruence|].
+    apply Nat.eqb_neq in N1, N2. rewrite (Nat.eqb_sym w x), N2, (Nat.eqb_sym u x), N1. reflexivity. }
+  assert (G5 : forall x, s_present s x = true -> s_grp s5 x = s_grp s x).
+  { intros x Px. cbn [s5 s_grp]. rewrite IG.
+    destruct (Nat.eqb_spec x u) as [->|N1]; [congruence|]. destruct (Nat.eqb_spec x w) as [->|N2]; [congruence|].
+    cbn [orb]. unfold G3, G2, fupd. apply Nat.eqb_neq in N1, N2.
+    rewrite (Nat.eqb_sym w x), N2, (Nat.eqb_sym u x), N1. reflexivity. }
+  assert (A2 : forall k, In k (alive_groups s2) <-> In k (alive_groups s)).
+  { intros k. rewrite !alive_in. split.
+    - intros (x & _ & Px & Gx). cbn [s2 s_present s_grp] in Px, Gx. unfold P2, G2, fupd in Px, Gx.
+      destruct (Nat.eqb_spec w x); [discriminate|]. destruct (Nat.eqb_spec u x); [discriminate|].
+      exists x. split; [apply HB; exact Px|]. split; assumption.
+    - intros (x & _ & Px & Gx). exists x. cbn [s2 s_bound s_present s_grp]. unfold P2, G2, fupd.
+      destruct (Nat.eqb_spec w x) as [<-|]; [congruence|]. destruct (Nat.eqb_spec u x) as [<-|]; [congruence|].
+      split; [pose proof (HB x Px); unfold b2; lia|]. split; assumption. }
+  assert (A5 : forall k, In k (alive_groups s5) <-> In k (alive_groups s)).
+  { intros k. rewrite !alive_in. split.
+    - intros (x & _ & Px & Gx). rewrite P5 in Px. rewrite (G5 x Px) in Gx.
+      exists x. split; [apply HB; exact Px|]. split; assumption.
+    - intros (x & _ & Px & Gx). exists x. rewrite P5, (G5 x Px).
+      split; [pose proof (HB x Px); cbn [s5 s_bound]; unfold b2; lia|]. split; assumption. }
+  split; [|split].
+  - (* within the limits *)
+    change (cycle u w a d) with ([OAdd u; OAdd w] ++ [OBind u w a; OPut w d; OData w]).
+    apply within_limits_app. split.
+    + cbn [within_limits pre]. auto.
+    + rewrite S12. cbn [fst within_limits]. rewrite S3. cbn [fst]. rewrite S4. cbn [fst pre].
+      split; [|split; [|split; [|exact I]]].
+      * cbn [s2 s_present s_grp s_edges]. unfold P2, G2, E2, fupd. rewrite Nwu, !Nat.eqb_refl.
+        split; [reflexivity|]. split; [reflexivity|]. split; [exact Hne|].
+        split; [right; cbn; lia|].
+        rewrite (alive_same_length s2 s A2). exact Hal.
+      * cbn [s3 s_present]. unfold P2, fupd. rewrite Nat.eqb_refl. reflexivity.
+      * cbn [s4 s_present]. unfold P2, fupd. rewrite Nat.eqb_refl. reflexivity.
+  - rewrite SR. cbn [fst]. split; [|split; [|split; [exact P5|split; [exact G5|apply alive_same_length; exact A5]]]].
+    + intros x Px. rewrite P5 in Px. pose proof (HB x Px). cbn [s5 s_bound]. unfold b2. lia.
+    + intros x k Px Gx. rewrite P5 in Px. rewrite (G5 x Px) in Gx. pose proof (HF x k Px Gx).
+      cbn [s5 s_fresh]. lia.
+  - rewrite SR. reflexivity.
+Qed.
+
+(** any number of cycles, each over its own pair of currently absent ids *)
+Fixpoint cycles (cs : list (nat * nat * label * hex)) : list op :=
+  match cs with
+  | [] => []
+  | (u, w, a, d) :: t => cycle u w a d ++ cycles t
+  end.
+
+Theorem cycles_spec n cap : forall cs s,
+  bounded s -> fresh_ok s -> 1 <= n -> length (alive_groups s) < 14 ->
+  Forall (fun c => match c with (u, w, _, _) =>
+            u <> w /\ u < cap /\ w < cap /\ s_present s u = false /\ s_present s w = false end) cs ->
+  within_limits n cap s (cycles cs)
+  /\ (forall x, s_present (fst (srun s (cycles cs))) x = s_present s x)
+  /\ length (alive_groups (fst (srun s (cycles cs)))) = length (alive_groups s).
+Proof.
+  induction cs as [|[[[u w] a] d] t IH]; intros s HB HF Hn Hal HC.
+  - cbn. auto.
+  - inversion HC as [|? ? Hhd HC']; subst. cbn beta iota in Hhd. destruct Hhd as (H1 & H2 & H3 & H4 & H5). cbn [cycles].
+    destruct (cycle_spec n cap s u w a d HB HF H1 H2 H3 Hn H4 H5 Hal) as (W1 & (B1 & F1 & P1 & G1 & L1) & _).
+    set (s1 := fst (srun s (cycle u w a d))) in *.
+    assert (HC1 : Forall (fun c => match c with (u0, w0, _, _) =>
+               u0 <> w0 /\ u0 < cap /\ w0 < cap /\ s_present s1 u0 = false /\ s_present s1 w0 = false end) t).
+    { eapply Forall_impl; [|exact HC']. intros [[[u0 w0] a0] d0]. rewrite !P1. tauto. }
+    assert (Hal1 : length (alive_groups s1) < 14) by lia.
+    destruct (IH s1 B1 F1 Hn Hal1 HC1) as (W2 & P2 & L2).
+    split; [apply within_limits_app; split; assumption|].
+    rewrite srun_app. cbn [fst]. fold s1. split.
+    + intros x. rewrite P2. apply P1.
+    + lia.
+Qed.
+
+Lemma cycle_def u w a d : cycle u w a d = [OAdd u; OAdd w; OBind u w a; OPut w d; OData w].
+Proof. reflexivity. Qed.
+
+Lemma clone_observers g :
+  op_keys (op_clone g) = op_keys g /\ g_next (op_clone g) = g_next g
+  /\ (forall v, op_kids (op_clone g) v = op_kids g v)
+  /\ (forall v a, op_kid (op_clone g) v a = op_kid g v a)
+  /\ (forall v, op_data (op_clone g) v = op_data g v)
+  /\ op_next_id (op_clone g) = op_next_id g.
+Proof. repeat split. Qed.
